@@ -23,6 +23,7 @@ import (
 	"encoding/hex"
 	"encoding/json"
 	"errors"
+	"fmt"
 	"io"
 	"math"
 	"net/http"
@@ -376,7 +377,10 @@ func (m *lfsModule) handleHTTPProduce(w http.ResponseWriter, r *http.Request) {
 	}
 	defer func() { _ = backendConn.Close() }()
 
-	_, err = m.forwardToBackend(r.Context(), backendConn, payload)
+	respBytes, err := m.forwardToBackend(r.Context(), backendConn, payload)
+	if err == nil {
+		err = lfsProduceAckError(respBytes, reqHeader.APIVersion, topic, partition)
+	}
 	if err != nil {
 		m.metrics.IncRequests(topic, "error", "lfs")
 		m.trackOrphans([]orphanInfo{{Topic: topic, Key: objectKey, RequestID: requestID, Reason: "kafka_produce_failed"}})
@@ -1077,7 +1081,11 @@ func (m *lfsModule) handleHTTPUploadComplete(w http.ResponseWriter, r *http.Requ
 	}
 	defer func() { _ = backendConn.Close() }()
 
-	if _, err := m.forwardToBackend(r.Context(), backendConn, payload); err != nil {
+	respBytes, err := m.forwardToBackend(r.Context(), backendConn, payload)
+	if err == nil {
+		err = lfsProduceAckError(respBytes, reqHeader.APIVersion, session.Topic, session.Partition)
+	}
+	if err != nil {
 		m.trackOrphans([]orphanInfo{{Topic: session.Topic, Key: session.S3Key, RequestID: requestID, Reason: "kafka_produce_failed"}})
 		m.tracker.EmitUploadFailed(requestID, session.Topic, session.S3Key, "backend_error", err.Error(), "kafka_produce", session.TotalUploaded, 0)
 		m.lfsWriteHTTPError(w, requestID, session.Topic, http.StatusBadGateway, "backend_error", err.Error())
@@ -1092,6 +1100,30 @@ func (m *lfsModule) handleHTTPUploadComplete(w http.ResponseWriter, r *http.Requ
 	w.Header().Set("Content-Type", "application/json")
 	w.WriteHeader(http.StatusOK)
 	_ = json.NewEncoder(w).Encode(env)
+}
+
+// lfsProduceAckError returns nil only if the broker's produce reply
+// acknowledges the given partition without an error code.
+func lfsProduceAckError(respBytes []byte, version int16, topic string, partition int32) error {
+	resp, err := parseProduceResponse(respBytes, version)
+	if err != nil {
+		return err
+	}
+	for _, t := range resp.Topics {
+		if t.Topic != topic {
+			continue
+		}
+		for _, p := range t.Partitions {
+			if p.Partition != partition {
+				continue
+			}
+			if p.ErrorCode != protocol.NONE {
+				return fmt.Errorf("broker rejected the envelope record with error code %d", p.ErrorCode)
+			}
+			return nil
+		}
+	}
+	return fmt.Errorf("broker reply does not acknowledge %s/%d", topic, partition)
 }
 
 func (m *lfsModule) handleHTTPUploadAbort(w http.ResponseWriter, r *http.Request, requestID, sessionID string) {
